@@ -74,3 +74,20 @@ Proof.
   split; [repeat split; try reflexivity; apply N2; reflexivity|].
   repeat split; reflexivity.
 Qed.
+
+(* a raising example with an expected traceback: the standard module compares the block's final 'Type: message' text with the
+   last line of the formatted exception, using the same OutputChecker (IGNORE_EXCEPTION_DETAIL not needed) *)
+From XD Require Import Proofs.RunDecide.
+Theorem std_traceback_example_passes e n ls last want :
+  extract_exc_want want = Some (join_nl ls) ->
+  ls <> [] -> Forall LineOK ls -> Plain last -> Plain (join_nl ls) ->
+  contains BLANKLINE last = false ->
+  true_for_1 (join_nl ls ++ [NL]) last = false ->
+  (e = true -> contains marker last = false) ->
+  std_check_output e n (join_nl ls ++ [NL]) last = true ->
+  check_exception default_flags last want = Some true.
+Proof.
+  intros X Hne HF Hg Hw Hnm Ht Hell Hstd.
+  destruct (check_exception_spec default_flags last want (join_nl ls) X) as [[_ A] _]. apply A.
+  left. eapply std_output_accepted; eassumption.
+Qed.
